@@ -12,7 +12,7 @@ Direct oracle (no Lean): result inside [lb, ub] exactly; cost(result) <= cost(x)
 loss object built from scratch with the parameters bound by name; fit(theta*) = theta* to 1e-5 on noise-free data
 generated from a reference trajectory.
 
-SEQUENCES and FORMS (STRENGTHEN_GUIDE families 1-5).  About half of the cases continue with 1-2 FURTHER fit calls on the
+SEQUENCES and FORMS (STRENGTHEN_GUIDE families 1-5).  Two in five of the cases continue with 1-2 FURTHER fit calls on the
 SAME loss object (`case["then"]`): another box that excludes the optimum of the earlier call in one coordinate, a sub-box, the
 same box from another start, a wider box; between the calls the user may evaluate the cost elsewhere, scramble the shared
 ode's parameters, let another loss object on the same ode fit, or continue on a `copy.deepcopy` of the object;
@@ -51,7 +51,7 @@ RULE = ("real fit(x, lb, ub) on pygom.common_models SIR_norm / SIR / SIS / SEIR 
         "states; all or a subset of the parameters as targets in random order; noise-free or noisy data; starts inside the box, "
         "on its boundary, and at the generating parameters; also lb=None / ub=None and mismatched lengths.  A case is "
         "non-trivial when the box has >= 2 coordinates with lb != ub-pattern distinguishable from a C-order packing "
-        "(i.e. n >= 2) or the start is the truth.  Half of the fit cases go on with 1-2 further fit calls on the same object "
+        "(i.e. n >= 2) or the start is the truth.  Two in five of the fit cases go on with 1-2 further fit calls on the same object "
         "(other box excluding the earlier optimum / sub-box / same box / wider box; interludes: cost elsewhere, ode parameters "
         "scrambled, another loss object on the same ode fitting, deepcopy; full_output=True), each judged with its own box and "
         "start, the last repeated on a fresh object (tags call:k:*, then:*, interlude:*); x/lb/ub are handed over as list / tuple / "
@@ -253,8 +253,8 @@ def gen_malformed(rng):
 
 
 def make_cases(rng, tier, budget):
-    cases = [(gen_fit if i % 2 == 0 else gen_session)(random.Random(rng.getrandbits(64))) for i in range(budget["fits"])]
-    cases += [(gen_fit if i % 2 == 0 else gen_session)(random.Random(rng.getrandbits(64)), random_model=True) for i in range(budget["random"])]
+    cases = [(gen_session if i % 5 in (1, 3) else gen_fit)(random.Random(rng.getrandbits(64))) for i in range(budget["fits"])]
+    cases += [(gen_session if i % 5 in (1, 3) else gen_fit)(random.Random(rng.getrandbits(64)), random_model=True) for i in range(budget["random"])]
     cases += [gen_malformed(random.Random(rng.getrandbits(64))) for _ in range(budget["malformed"])]
     cases += [gen_intbox(random.Random(rng.getrandbits(64))) for _ in range(budget.get("intbox", 0))]
     return cases
